@@ -211,9 +211,10 @@ theorem sub_network_edges (net : Net W) (hnet : WFNet net) (s : Nat) (hs : s < n
 
 /-! ### one `Network` object used for a sequence of calls (`Model/GraphSession.lean`) -/
 
-/-- the reset of the routing flags: whatever `poids` / `visite` / `antecedent` the earlier calls (searches on this
-network, or on another network sharing the `Node` objects, as `sub_network` produces) left on the nodes of `NODES`,
-`__resetFlags` followed by `source.poids = 0` yields the initial labelling of a fresh search. -/
+/-- the reset of the routing flags: whatever `poids` / `visite` / `antecedent` the earlier searches on this network left
+on the nodes of `NODES` (no flag outside `NODES`: `CleanOutside`, part of the session invariant), `__resetFlags` followed by
+`source.poids = 0` yields the initial labelling of a fresh search. When another network holds the same `Node` objects
+(as `sub_network` produces) there *are* flags outside `NODES`: that case is `shared_nodes_search_pure` below. -/
 theorem search_starts_clean (order : List Nat) (st : St W) (s : Nat) (h : CleanOutside order st) :
     startFlags order st s = St.init s :=
   start_clean order st s h
